@@ -142,6 +142,18 @@ def gen(ctx: Ctx) -> Cases:
             for al in (1, 2, 7, 8, 12, 15, 16, 17, 28, 32, 60):
                 cs.add([fl, 1, sign, 1, seq, forged_reply(b"EVIL" * 4, al)], stub)
                 cs.add([fl, 1, sign, 1, seq, forged_reply(stub, al, pad=len(stub) - n)], stub)
+            # forged replies whose security trailer octets (auth_type, auth_level, pad_length, reserved, context id) take
+            # the values a reader might treat specially (0 = "none", other providers / levels, all ones)
+            for al in (4, 16):
+                base_f = forged_reply(b"EVIL" * 4, al)
+                toff = len(base_f) - al - 8
+                for o in range(8):
+                    for v in (0, 1, 2, 5, 6, 9, 10, 16, 0x80, 0xFF):
+                        m = bytearray(base_f)
+                        if m[toff + o] == v:
+                            continue
+                        m[toff + o] = v
+                        cs.add([fl, 1, sign, 1, seq, bytes(m)], stub)
             # every single-bit flip
             step = 1 if (ctx.thorough or n <= 16) else 3
             for byte in range(0, len(wire), 1):
